@@ -249,6 +249,11 @@ func link(files []protoreflect.FileDescriptor) (*protoregistry.Files, error) {
 	return own, nil
 }
 
+// ThoroughPrograms adds the field-pair programs.
+func ThoroughPrograms() []*gj5s.Case {
+	return append(Programs(), gj5s.PairFieldCases()...)
+}
+
 // Programs: the j5s families whose declarations the bridge understands.
 func Programs() []*gj5s.Case {
 	var out []*gj5s.Case
